@@ -528,8 +528,21 @@ __attribute__((no_instrument_function)) void __cyg_profile_func_exit(void* fn, v
 void GOMP_parallel(void (*fn)(void*), void* data, unsigned num_threads, unsigned flags) { run_region(fn, data, num_threads, 0); }
 void GOMP_parallel_sections(void (*fn)(void*), void* data, unsigned num_threads, unsigned count, unsigned flags) { run_region(fn, data, num_threads, count); }
 
+// a sections construct inside an existing parallel region (not the combined 'parallel sections')
+static bool in_team(); static void team_barrier();
+static thread_local bool tl_solo_sections = false; static thread_local unsigned tl_sec_count = 0, tl_sec_next = 0;
+unsigned GOMP_sections_next(void);
+unsigned GOMP_sections_start(unsigned count) {
+    if (!in_team()) { tl_solo_sections = true; tl_sec_count = count; tl_sec_next = 0; return GOMP_sections_next(); }
+    Region& r = G.reg; Member& m = G.mem[tl_member];
+    if (G.cfg.free_running) pthread_mutex_lock(&G.fr_mu);
+    m.ws_seen++; if (m.ws_seen > r.ws_gen) { r.sections_count = count; r.sections_next = 0; r.ws_gen = m.ws_seen; }
+    if (G.cfg.free_running) pthread_mutex_unlock(&G.fr_mu);
+    return GOMP_sections_next();
+}
 unsigned GOMP_sections_next(void) {
     Region& r = G.reg;
+    if (tl_solo_sections && !(tl_member >= 0 && r.n > 1 && tl_nest == 0)) return tl_sec_next < tl_sec_count ? ++tl_sec_next : 0;
     if (tl_member >= 0 && r.n > 1 && tl_nest == 0) {
         if (G.cfg.free_running) {
             pthread_mutex_lock(&G.fr_mu);
@@ -542,8 +555,8 @@ unsigned GOMP_sections_next(void) {
     if (r.sections_next < r.sections_count) return ++r.sections_next;
     return 0;
 }
-void GOMP_sections_end_nowait(void) {}
-void GOMP_sections_end(void) {}
+void GOMP_sections_end_nowait(void) { tl_solo_sections = false; }
+void GOMP_sections_end(void) { tl_solo_sections = false; team_barrier(); }
 
 // ---- explicit barrier (also the implicit one at the end of a work-sharing loop without nowait)
 static char tok_bar;
